@@ -78,6 +78,11 @@ unsafe impl<L: Flat + Length, S: AsRef<str>> Emplacer<FlatString<L>> for FromStr
         // Capacity depends only on the slice length, so check it before the target is touched.
         let vec = unsafe { FlatString::<L>::from_mut_bytes_unchecked(bytes) };
         if vec.capacity() < self.0.as_ref().len() {
+            // A valid target is left as it is. Bytes that are no valid string (the tail of a composite
+            // that is being re-initialised) are made an empty one, so that a valid value is left behind.
+            if unsafe { FlatString::<L>::validate_unchecked(bytes) }.is_err() {
+                unsafe { <Empty as Emplacer<FlatString<L>>>::emplace_unchecked(Empty, bytes) }?;
+            }
             return Err(Error {
                 kind: ErrorKind::InsufficientSize,
                 pos: 0,
